@@ -158,6 +158,8 @@ func ParseStatement(p *ParserZH) syntax.Statement {
 //
 // #, #{}  >  *，/  >  +，-  >  为  >  等于，大于，etc.  >  且  >  或
 func ParseExpression(p *ParserZH) syntax.Expression {
+	p.enterExpr()
+	defer p.leaveExpr()
 	cfg := syntax.EqMarkConfig{
 		AsVarAssign: true,
 	}
@@ -165,6 +167,8 @@ func ParseExpression(p *ParserZH) syntax.Expression {
 }
 
 func ParseExpressionMAP(p *ParserZH) syntax.Expression {
+	p.enterExpr()
+	defer p.leaveExpr()
 	cfg := syntax.EqMarkConfig{
 		AsMapSign: true,
 	}
